@@ -309,6 +309,9 @@ static int run_random(uint64_t seed, long n, bool nodedup, bool intnormals, bool
     if (getenv("VERIF_ONLY_CASE") && atoll(getenv("VERIF_ONLY_CASE")) != n_cases + 1) { ++n_cases; continue; }
     // a process that starts in the middle of the campaign: the cases are generated (same random stream) but nothing is encoded before case N
     if (getenv("VERIF_FROM_CASE") && n_cases + 1 < atoll(getenv("VERIF_FROM_CASE"))) { ++n_cases; continue; }
+    // ... or with the first LARGE mesh of the campaign (more than 1200 faces): the first geometry a process encodes is then of another size class
+    static bool started = false;
+    if (getenv("VERIF_FROM_BIG") && !started) { if (g.is_mesh && g.mesh()->num_faces() > 1200) started = true; else { ++n_cases; continue; } }
     if (getenv("VERIF_SPLIT")) o.split = atoi(getenv("VERIF_SPLIT"));
     if (getenv("VERIF_PRED")) o.pred = atoi(getenv("VERIF_PRED"));
     if (getenv("VERIF_ES")) o.es = o.ds = atoi(getenv("VERIF_ES"));
